@@ -113,6 +113,7 @@ type c19World struct {
 	hookErr  error
 	trace    []string
 
+	store2    *metadata.EtcdStore  // "broker 2's" metadata store, used for topic administration
 	overtook  bool                 // a session loss where an Acquire overtook the session monitor
 	unnoticed *concurrency.Session // ended session the manager had not let go of after 5 s
 	prevLease clientv3.LeaseID     // lease of the keys left behind by this broker's previous incarnation
@@ -334,7 +335,36 @@ type c19NoCloseLease struct{ clientv3.Lease }
 
 func (c19NoCloseLease) Close() error { return nil }
 
+// recreateTopic: the topic is deleted and created again under the same name through another
+// broker's EtcdStore while this broker stays up. Topic administration must not touch the
+// partition leases of live owners.
+func (w *c19World) recreateTopic(name string, partitions int32) error {
+	ctx, cancel := context.WithTimeout(context.Background(), 30*time.Second)
+	defer cancel()
+	if w.store2 == nil {
+		meta, err := w.store.Metadata(ctx, nil)
+		if err != nil {
+			return fmt.Errorf("%w: metadata: %v", errC19Inconclusive, err)
+		}
+		s2, err := metadata.NewEtcdStore(ctx, *meta, metadata.EtcdStoreConfig{Endpoints: w.env.endpoints})
+		if err != nil {
+			return fmt.Errorf("%w: second store: %v", errC19Inconclusive, err)
+		}
+		w.store2 = s2
+	}
+	if err := w.store2.DeleteTopic(ctx, name); err != nil && !errors.Is(err, metadata.ErrUnknownTopic) {
+		return fmt.Errorf("%w: DeleteTopic: %v", errC19Inconclusive, err)
+	}
+	if _, err := w.store2.CreateTopic(ctx, metadata.TopicSpec{Name: name, NumPartitions: partitions, ReplicationFactor: 1}); err != nil && !errors.Is(err, metadata.ErrTopicExists) {
+		return fmt.Errorf("%w: CreateTopic: %v", errC19Inconclusive, err)
+	}
+	return nil
+}
+
 func (w *c19World) close() {
+	if w.store2 != nil {
+		_ = w.store2.Close()
+	}
 	w.h.leaseManager.ReleaseAll()
 	if w.h.groupLeaseManager != nil {
 		w.h.groupLeaseManager.ReleaseAll()
@@ -719,7 +749,7 @@ func TestVF_C19_Produce(t *testing.T) {
 			var moves []string
 			nmoves := rapid.IntRange(0, 3).Draw(rt, "moves")
 			for m := 0; m < nmoves; m++ {
-				mv := rapid.SampledFrom([]string{"foreign-acquire", "foreign-acquire", "foreign-acquire", "foreign-release", "self-expire", "self-expire"}).Draw(rt, "move")
+				mv := rapid.SampledFrom([]string{"foreign-acquire", "foreign-acquire", "foreign-acquire", "foreign-release", "self-expire", "self-expire", "topic-recreate"}).Draw(rt, "move")
 				switch mv {
 				case "foreign-acquire":
 					f := rapid.IntRange(0, len(w.foreign)-1).Draw(rt, "foreign")
@@ -731,6 +761,29 @@ func TestVF_C19_Produce(t *testing.T) {
 					p := w.universe[rapid.IntRange(0, 4).Draw(rt, "part")]
 					w.foreign[f].Release(p.Topic, p.P)
 					moves = append(moves, fmt.Sprintf("b%d.release(%s)", f+2, p))
+				case "topic-recreate":
+					tn := rapid.SampledFrom([]string{"t1", "t2"}).Draw(rt, "topic")
+					np := int32(3)
+					if tn == "t2" {
+						np = 2
+					}
+					fail("", w.recreateTopic(tn, np))
+					moves = append(moves, fmt.Sprintf("broker2: DeleteTopic(%s)+CreateTopic(%s,%d)", tn, tn, np))
+					st.Class("topic-deleted-and-recreated")
+					// usually a foreign broker then tries one of that topic's partitions this broker holds
+					if rapid.IntRange(0, 3).Draw(rt, "thenForeign") > 0 {
+						var held []c19Part
+						for _, p := range known5 {
+							if p.Topic == tn && w.h.leaseManager.Owns(p.Topic, p.P) {
+								held = append(held, p)
+							}
+						}
+						if len(held) > 0 {
+							p := held[rapid.IntRange(0, len(held)-1).Draw(rt, "heldIdx")]
+							err := w.foreign[0].Acquire(context.Background(), p.Topic, p.P)
+							moves = append(moves, fmt.Sprintf("b2.acquire(%s)=%v", p, err))
+						}
+					}
 				case "self-expire":
 					// optionally with an Acquire of a not-yet-owned partition overtaking the session monitor
 					var over *c19Part
